@@ -536,8 +536,11 @@ func (t *ZeroAllocTokenizer) TokenizeHtmlPreserving() ([]Token, error) {
 			tagContent = strings.TrimSpace(tagContent)
 
 			if tagType == TOKEN_BLOCK_START || tagType == TOKEN_BLOCK_START_TRIM {
-				// Process block tags with specialized tokenization
-				t.processBlockTag(tagContent)
+				// Process block tags with specialized tokenization; an empty tag
+				// yields no name token, as in TokenizeOptimized
+				if len(tagContent) > 0 {
+					t.processBlockTag(tagContent)
+				}
 			} else {
 				// Process variable tags with optimized tokenization
 				if len(tagContent) > 0 {
